@@ -22,9 +22,10 @@ ASSUMPTIONS = [
     "Python's hash of str/int/tuple/None/bool is an uninterpreted function: the model compares hash INPUTS (equal inputs "
     "give equal hashes; unequal inputs may collide, which is not a defect) — the correspondence therefore checks "
     "`model keys equal => real hashes equal` and `real == <=> model ==`",
-    "dependencies, package specifications and packages are judged by the real-code oracle; the Lean side covers them through "
-    "the specification-equality model of this property (source fields as opaque strings; packaging.canonicalize_name and "
-    "vcs.git.ParsedUrl are trusted and applied by the harness before the model is asked)",
+    "dependencies, package specifications and packages are judged by the real-code oracle on every pool object; the theorems are "
+    "about Model/Dep.lean (C10's model of specification.py / dependency.py), tied to the real code here for the requirement "
+    "texts of the pool (driver op `depeq`) and by C10's own correspondence for the constructors; `Package` = specification + "
+    "version (`EqHash.Pkg`), oracle only",
     "interchangeability is judged on probe vectors (versions around every bound; the environment grid of C06; probe packages "
     "for dependencies); for dependencies equality deliberately ignores markers, python constraint, groups and optionality",
     "marker pools stay below 5 leaves per text so that intersect/union/cnf/dnf finish within the per-call limit",
@@ -250,6 +251,9 @@ def build(ctx: core.Ctx, kind: str, specs: list[tuple[str, str]]) -> list[Obj]:
             continue
         seen.add(spec)
         ob = Obj(kind, spec, fam)
+        if kind == "marker":
+            # equal-and-hash-equal markers would be handed out for one another by the functools caches (C20's subject)
+            MC.clear_caches()
         try:
             ob.obj = core.with_alarm(CALL_LIMIT, lambda: eval_spec(kind, spec))
             ob.beh = core.with_alarm(CALL_LIMIT * 3, lambda: behaviour(kind, ob.obj))
@@ -826,6 +830,34 @@ def model_compare(ctx: core.Ctx, kind: str, pool: list[Obj], objs: list[Obj], ro
     ctx.stream(stream + ":model", len(both) * len(both), dis)
 
 
+def dep_model_compare(ctx: core.Ctx, objs: list[Obj], rows: list[int], hs: list[Any], stream: str) -> None:
+    """requirement texts of the dependency pool against Model/Dep.lean (driver op `depeq` of C10): `==` both ways and
+    `model hash keys equal => real hashes equal`"""
+    idx = [i for i, o in enumerate(objs) if o.spec.startswith("508|") and core.valid_utf8(o.spec)]
+    pairs = [(i, j) for i in idx for j in idx]
+    if len(pairs) > 2500:
+        pairs = ctx.rng.sample(pairs, 2500)
+    if not pairs:
+        return
+    rep = core.run_driver([core.line("depeq", objs[i].spec[4:], objs[j].spec[4:]) for i, j in pairs])
+    if rep and rep[0][0] == "bad-op":
+        ctx.count("dep:model-op-not-registered")
+        return
+    dis = 0
+    for (i, j), r in zip(pairs, rep):
+        if r[0] != "ok":
+            ctx.count("dep:model:" + ":".join(r[:2]))
+            continue
+        real = bool(rows[i] >> j & 1)
+        if real != (r[1][0] == "1"):
+            dis += 1
+            ctx.disagree(stream + ":eq", {"kind": "dep", "a": objs[i].spec, "b": objs[j].spec}, real, r[1])
+        if r[1][2] == "1" and hs[i] != hs[j]:
+            dis += 1
+            ctx.disagree(stream + ":hash-input", {"kind": "dep", "a": objs[i].spec, "b": objs[j].spec}, "hashes differ", r[1])
+    ctx.stream(stream + ":model", len(pairs), dis)
+
+
 def real_coherent(m: Any) -> bool:
     """every SingleMarker inside `m` is what the constructor builds from the marker's own key"""
     from poetry.core.version.markers import MarkerUnion, MultiMarker, SingleMarker
@@ -860,6 +892,8 @@ def run_round(ctx: core.Ctx, scale: int, tag: str, with_model: bool = True) -> N
         objs, rows, hs = oracle(ctx, kind, pool, f"{tag}:{kind}")
         if with_model and kind in MODEL_KINDS:
             model_compare(ctx, kind, pool, objs, rows, hs, f"{tag}:{kind}")
+        if with_model and kind == "dep":
+            dep_model_compare(ctx, objs, rows, hs, f"{tag}:dep")
         if kind == "marker":
             MC.clear_caches()
 
@@ -876,6 +910,8 @@ def corpus(ctx: core.Ctx) -> None:
         objs, rows, hs = oracle(ctx, kind, pool, "corpus:" + kind)
         if kind in MODEL_KINDS:
             model_compare(ctx, kind, pool, objs, rows, hs, "corpus:" + kind)
+        if kind == "dep":
+            dep_model_compare(ctx, objs, rows, hs, "corpus:dep")
 
 
 def correspondence(ctx: core.Ctx) -> None:
